@@ -123,20 +123,62 @@ def go_build(target, tags='verif'):
     return rc, out, dt
 
 
-def translate():
-    """Regenerate coq/gen/*.v from REPO's current source (the translator)."""
+def _task_dirs():
+    rc, out, _ = sh([f'{BIN}/translate', '-tasks'])
+    d = {}
+    for line in out.strip().split('\n'):
+        f = line.split()
+        if f:
+            d[f[0]] = f[1:]
+    return d
+
+
+def _hash_go(dirs):
+    h = hashlib.sha256()
+    h.update(open(f'{BIN}/translate', 'rb').read())
+    for d in dirs:
+        base = os.path.join(REPO, d)
+        for root, dn, fn in os.walk(base):
+            dn[:] = sorted(x for x in dn if x != '.git')
+            for f in sorted(fn):
+                if f.endswith('.go') and not f.endswith('_test.go'):
+                    p = os.path.join(root, f)
+                    h.update(p.encode())
+                    try:
+                        h.update(open(p, 'rb').read())
+                    except OSError:
+                        pass
+    return h.hexdigest()[:20]
+
+
+def translate(tasks=None):
+    """Regenerate coq/gen/*.v from REPO's current source (the translator).
+    Output of each task is cached by the hash of the Go files it reads."""
     rc, out, dt = go_build('translate', tags='')
     if rc != 0:
         return rc, 'translator build failed:\n' + out, dt, []
-    tmp = f'{WS}/gen_tmp'
-    shutil.rmtree(tmp, ignore_errors=True)
-    rc, out, dt2 = sh([f'{BIN}/translate', '-repo', REPO, '-out', tmp], timeout=900, env=GOENV)
+    td = _task_dirs()
+    if tasks is None:
+        tasks = sorted(td)
     changed = []
-    if rc == 0:
-        for f in sorted(os.listdir(tmp)):
-            if f.endswith('.v') and write_if_changed(f'{COQ}/gen/{f}', open(f'{tmp}/{f}').read()):
+    t0 = time.time()
+    for task in tasks:
+        if task not in td:
+            return 1, f'unknown translator task {task}', 0, []
+        key = _hash_go(td[task])
+        cdir = f'{WS}/gen_cache/{task}-{key}'
+        if not os.path.isdir(cdir):
+            tmp = cdir + f'.tmp{os.getpid()}'
+            shutil.rmtree(tmp, ignore_errors=True)
+            os.makedirs(tmp)
+            rc, out, _ = sh([f'{BIN}/translate', '-repo', REPO, '-out', tmp, '-only', task], timeout=1800, env=GOENV)
+            if rc != 0:
+                return rc, out, time.time() - t0, changed
+            os.rename(tmp, cdir)
+        for f in sorted(os.listdir(cdir)):
+            if f.endswith('.v') and write_if_changed(f'{COQ}/gen/{f}', open(f'{cdir}/{f}').read()):
                 changed.append(f)
-    return rc, out, dt + dt2, changed
+    return 0, '', dt + time.time() - t0, changed
 
 
 def make_targets(targets, jobs=16, timeout=3000):
